@@ -14,9 +14,6 @@ type Spec_ImportanceRatioReferenceCriterionProvider struct {
 type Spec_ImportanceRatioReferenceCriterionManager struct {
 }
 
-type Spec_ImportanceRatioReferenceCriterionManager struct {
-}
-
 type Spec_RandomUniformReferenceCriterionProvider struct {
 	NewCriterionRandomSeed int64 `json:"newCriterionRandomSeed"`
 	generator              utils.SeededValueGenerator
